@@ -20,7 +20,8 @@ RULE = ('Hypothesis draws the structure of a room (2..6 base stations with arbit
         'of the first sample, unlinkable systems raise LhException, linkable ones never raise, matcher grouping equals an independent '
         're-implementation. One room in seven keeps all poses inside a 0.5 m box (hovering). Sub "dropped-sample-rooms" replays stored rooms '
         '(found offline by tools/find_dropped_rooms.py on the unchanged tree) in which the estimator discards error-free samples and a '
-        'station is first seen after the first discarded one. Non-trivial = >= 3 stations with partial visibility, exactly 2 stations, or '
+        'station is first seen after the first discarded one; sub "rough-initial-rooms" replays stored rooms (tools/find_rough_rooms.py) whose '
+        'initial estimate is rough on the unchanged tree and which the solver nevertheless solves to 0.3 mm. Non-trivial = >= 3 stations with partial visibility, exactly 2 stations, or '
         'non-contiguous ids.')
 ASSUMPTIONS = ['measurements of one pose lie within 20 ms of the first one and consecutive poses are more than 20 ms apart from that first one',
                'a station is only "visible" when all four sensors are inside +-60/+-50 deg and it looks at the top side of the deck',
@@ -232,6 +233,9 @@ def run_room(case):
                 r2 = max(r2, rot_angle(sol2.bs_poses[b].rot_matrix, tb[b][0]))
             improved = p2 <= max(maxp / 2, 1e-3) and r2 <= max(maxr / 2, 1e-3) and p2 <= 5e-3 and r2 <= 5e-3
             mech = 'evaluation-cap' if (improved and not sol.success) else 'good-initial-estimate-wrong-answer'
+        if case.get('stored_exact'):
+            # a stored room that the pinned library solves exactly although its initial estimate is rough: not the listed finding
+            mech = 'stored-room-no-longer-solved(%s)' % mech
         out.fail('solve:wrong-geometry:%s' % mech, '%s: max position error %.4f m, rotation error %.4f rad, solver success=%r residual %.2e, initial estimate rotation error %.3f rad' % (
             desc, maxp, maxr, sol.success, resid, ini_r))
     return out
@@ -377,6 +381,7 @@ def subchecks(tier):
         Sub('rooms', run_room, strategy=room_case(), examples={'quick': 160, 'thorough': 9600}),
         Sub('ippe-and-solver', run_ippe, strategy=room_case(), examples={'quick': 160, 'thorough': 6000}),
         Sub('dropped-sample-rooms', run_room, cases=dropped_room_cases, distinct_by_construction=True),
+        Sub('rough-initial-rooms', run_room, cases=rough_room_cases, distinct_by_construction=True),
         Sub('pose-averaging', run_average, strategy=average_case(), examples={'quick': 800, 'thorough': 40000}),
     ]
 
@@ -386,6 +391,16 @@ def dropped_room_cases(tier):
     import json
     import os
     path = os.path.join(os.path.dirname(os.path.dirname(os.path.abspath(__file__))), 'corpus', 'C09', 'dropped-sample-rooms.json')
+    for c in json.load(open(path)):
+        yield c
+        yield dict(c, bs_order='reverse')      # the same room with the stations reporting in descending id order
+
+
+def rough_room_cases(tier):
+    """stored rooms (tools/find_rough_rooms.py) whose initial estimate is rough on the unchanged library and which its solver solves exactly"""
+    import json
+    import os
+    path = os.path.join(os.path.dirname(os.path.dirname(os.path.abspath(__file__))), 'corpus', 'C09', 'rough-initial-rooms.json')
     for c in json.load(open(path)):
         yield c
 
